@@ -164,15 +164,23 @@ VARIANTS = [
     {"name": "P R3 except Exception", "file": PROXY, "expect": "silent",
      "old": _PUMP_EXCEPT, "new": _PUMP_EXCEPT.replace("except:", "except Exception:")},
     # ------------------------------------------------------------------ R5
-    {"name": "R5 webapp handler bounded by wait_for, resume after it", "expect": "C15.R5",
-     "edits": [{"file": WEBAPP, "old": '    await asgiapp.serve(app, flow.flow)\n    # Send the modified flow object back to mitmproxy\n    flow.resume()\n',
-                "new": "    await asyncio.wait_for(asgiapp.serve(app, flow.flow), 30.0)\n    flow.resume()\n"},
-               {"file": WEBAPP, "old": "import abc\n", "new": "import abc\nimport asyncio\n"}]},
-    {"name": "P R5 webapp handler bounded by wait_for, resume in a finally", "expect": "silent",
-     "edits": [{"file": WEBAPP, "old": '    await asgiapp.serve(app, flow.flow)\n    # Send the modified flow object back to mitmproxy\n    flow.resume()\n',
+    {"name": "R5 webapp flow resumed only after the await returned (912d152 reverted)", "file": WEBAPP, "expect": "C15.R5",
+     "old": '    try:\n        await asgiapp.serve(app, flow.flow)\n    finally:\n        # Send the modified flow object back to mitmproxy, also when serving failed or was\n        # cancelled (addon unload, session close.) A taken flow nobody resumes hangs forever.\n        flow.resume()\n', "new": "    await asgiapp.serve(app, flow.flow)\n    flow.resume()\n"},
+    {"name": "R5 webapp handler bounded by wait_for, resume after the try", "expect": "C15.R5",
+     "edits": [{"file": WEBAPP, "old": '    try:\n        await asgiapp.serve(app, flow.flow)\n    finally:\n        # Send the modified flow object back to mitmproxy, also when serving failed or was\n        # cancelled (addon unload, session close.) A taken flow nobody resumes hangs forever.\n        flow.resume()\n',
                 "new": "    try:\n        await asyncio.wait_for(asgiapp.serve(app, flow.flow), 30.0)\n"
-                       "    finally:\n        flow.resume()\n"},
+                       "    except asyncio.TimeoutError:\n        raise\n    flow.resume()\n"},
                {"file": WEBAPP, "old": "import abc\n", "new": "import abc\nimport asyncio\n"}]},
+    {"name": "P R5 webapp handler bounded by wait_for, resume still in the finally", "expect": "silent",
+     "edits": [{"file": WEBAPP, "old": "        await asgiapp.serve(app, flow.flow)\n    finally:\n",
+                "new": "        await asyncio.wait_for(asgiapp.serve(app, flow.flow), 30.0)\n    finally:\n"},
+               {"file": WEBAPP, "old": "import abc\n", "new": "import abc\nimport asyncio\n"}]},
+    {"name": "R4 default request handling replaces an injected response again (af3a688 reverted)", "file": EVM, "expect": "C15.R4",
+     "old": '        if flow.response_injected:\n            # An addon already answered this request itself, the default handling\n            # below must not replace its response.\n            pass\n        elif cap_data and cap_data.cap_name.endswith("ProxyWrapper"):\n', "new": "        if cap_data and cap_data.cap_name.endswith(\"ProxyWrapper\"):\n"},
+    {"name": "P R4 injected-response test as an early return", "file": EVM, "expect": "silent",
+     "old": '        if flow.response_injected:\n            # An addon already answered this request itself, the default handling\n            # below must not replace its response.\n            pass\n        elif cap_data and cap_data.cap_name.endswith("ProxyWrapper"):\n',
+     "new": "        if flow.response_injected:\n            return\n"
+            "        if cap_data and cap_data.cap_name.endswith(\"ProxyWrapper\"):\n"},
     {"name": "R4 second region registered on a circuit address already in use", "file": STATE, "expect": "C15.R4",
      "old": "            if region.circuit_addr == circuit_addr:\n",
      "new": "            if region.circuit_addr == circuit_addr:\n"
